@@ -332,6 +332,12 @@ func directedUpcast(idx int) *upCase {
 			reg(1, 1, 1), reg(1, 2, 1), reg(2, 1, 4), reg(2, 3, 2), reg(3, 1, 3), upOp{kind: "cleartype", clear: 2}, reg(3, 1, 3), rp)
 	case 5: // empty names / nil function
 		return mk([]upFn{{1, 11, 2, false}}, []int{1}, reg(0, 2, 1), reg(1, 0, 1), reg(1, 2, 0), reg(1, 2, 1), rp)
+	case 7: // a cycle that closes through a non-first outgoing edge plus one more hop: A->B, A->C, C->D, then D->A
+		return mk([]upFn{{1, 11, 2, false}, {2, 12, 3, false}, {3, 13, 4, false}, {4, 14, 1, false}}, []int{1, 4},
+			reg(1, 2, 1), reg(1, 3, 2), reg(3, 4, 3), reg(4, 1, 4), rp)
+	case 8: // the same through the third edge and two more hops
+		return mk([]upFn{{1, 11, 2, false}, {2, 12, 3, false}, {3, 13, 4, false}, {4, 14, 5, false}, {5, 15, 6, false}, {6, 16, 1, false}}, []int{1},
+			reg(1, 2, 1), reg(1, 3, 2), reg(1, 4, 3), reg(4, 5, 4), reg(5, 6, 5), reg(6, 1, 6), rp)
 	case 6: // race closing a cycle
 		return mk([]upFn{{1, 11, 2, false}, {2, 12, 1, false}}, []int{1, 2},
 			upOp{kind: "race", from: 1, to: 2, fn: 1, from2: 2, to2: 1, fn2: 2}, rp)
@@ -340,7 +346,7 @@ func directedUpcast(idx int) *upCase {
 }
 
 func init() {
-	register(&Family{Name: "upcast", Quick: 400, Thorough: 6000, Directed: 7,
+	register(&Family{Name: "upcast", Quick: 400, Thorough: 6000, Directed: 9,
 		Run: func(rng *rand.Rand, idx int, tier string) Case {
 			c := directedUpcast(idx)
 			if c == nil {
